@@ -227,11 +227,42 @@ def cfg_label(c):
             f"cwd={c['cwd']} drop_atol={c['drop']} residual_atol={c['tol'] if c['tol'] is not None else 'default'}")
 
 
-def context(c):
-    dev = [f"{k}-{c[k]}" for k in PRESENTATION if c[k] != DIMS[k][0]]
+ROOT_DIMS = ("cwd", "extras", "dtype", "case", "order", "drop", "tol")
+
+
+def execute(c, small=True):
+    """build the inputs of configuration c and run the real code once"""
+    s = c["system"]
+    S = L.mask_to_subset(s, c["mask"])
+    ints = c["dtype"] == "int"
+    tol = DEFAULT_TOL if c["tol"] is None else c["tol"]
+    A = relations_in_force(s, c["cwd"])
+    E, vals, jstar = scenario(s, S, c["kind"], ints, small, tol, A)
+    table, nonmod = make_table(S, vals, ints, c["case"], c["order"], c["extras"])
+    status, res = call_fill(s, table, c["cwd"], c["ir"], c["ires"], c["drop"], c["tol"])
+    return S, tol, A, E, vals, jstar, table, nonmod, status, res
+
+
+def context(c, tname, small=True):
+    """root cause of an exception that was not due: the presentation deviations of c that are NECESSARY for it
+    (putting any one of them back to its default makes this exception type disappear), found by re-running the
+    real code; so one root cause keeps one signature whatever else deviates in the configuration."""
+    need = []
+    for k in ROOT_DIMS:
+        if c[k] == DIMS[k][0]:
+            continue
+        c2 = dict(c)
+        c2[k] = DIMS[k][0]
+        try:
+            out = execute(c2, small)
+            gone = not (out[-2] == "raised" and type(out[-1]).__name__ == tname)
+        except HarnessError:
+            gone = True
+        if gone:
+            need.append(f"{k}-{c[k]}")
     if c["mask"] == 0:
-        dev.append("no-modulus-columns")
-    return "+".join(dev) or "plain"
+        need.append("no-modulus-columns")
+    return "+".join(need) or "plain"
 
 
 def vector(cols):
@@ -249,13 +280,8 @@ def evaluate(c, small=True):
     """run ONE configuration on the real code and apply the oracle. Returns (viol, outcome, info)"""
     import pandas
     s = c["system"]
-    S = L.mask_to_subset(s, c["mask"])
     ints = c["dtype"] == "int"
-    tol = DEFAULT_TOL if c["tol"] is None else c["tol"]
-    A = relations_in_force(s, c["cwd"])
-    E, vals, jstar = scenario(s, S, c["kind"], ints, small, tol, A)
-    table, nonmod = make_table(S, vals, ints, c["case"], c["order"], c["extras"])
-    status, res = call_fill(s, table, c["cwd"], c["ir"], c["ires"], c["drop"], c["tol"])
+    S, tol, A, E, vals, jstar, table, nonmod, status, res = execute(c, small)
     suff = L.is_sufficient(s, S)
     norel = L.dimension(s) == 21
     reasons = []
@@ -271,10 +297,10 @@ def evaluate(c, small=True):
         if reasons:
             return viol, f"refused:{tname}:{'+'.join(reasons)}", info
         if isinstance(res, Warning):
-            viol.append(V(f"c09:refuses:{'sufficient' if suff else 'insufficient'}:{c['kind']}:ir{int(c['ir'])}:ires{int(c['ires'])}:{context(c)}",
+            viol.append(V(f"c09:refuses:{'sufficient' if suff else 'insufficient'}:{c['kind']}:ir{int(c['ir'])}:ires{int(c['ires'])}:{context(c, tname, small)}",
                           f"{lab}: refused with {tname}: {str(res)[:200]} although no refusal is due"))
         else:
-            viol.append(V(f"c09:raises:{tname}:{context(c)}",
+            viol.append(V(f"c09:raises:{tname}:{context(c, tname, small)}",
                           f"{lab}: raised {tname}: {str(res)[:200]} although no refusal is due"))
         return viol, f"raised:{tname}", info
     # returned
@@ -301,7 +327,7 @@ def evaluate(c, small=True):
         return viol, "bad-result", info
     cols, dup = C8.fold_columns(res)
     if dup:
-        viol.append(V(f"c09:duplicate-component-columns:{context(c)}",
+        viol.append(V("c09:duplicate-component-columns",
                       f"{lab}: columns {dup} occur more than once after lower-casing: {list(res.columns)}"))
     # non-modulus columns: bit-identical in presence, dtype and values
     for name in nonmod:
@@ -393,7 +419,7 @@ def run_subsets(case):
     """part A: every (flag combination x applicable value kind) for each subset of the chunk, plain presentation"""
     s = case["system"]
     viol, outcomes, nfill = [], {}, 0
-    for mask in case["masks"]:
+    for mask in [case["mask"]]:
         S = L.mask_to_subset(s, mask)
         for kind in applicable_kinds(s, S):
             for ir, ires in itertools.product((False, True), repeat=2):
@@ -405,7 +431,14 @@ def run_subsets(case):
                 outcomes[out] = outcomes.get(out, 0) + 1
     # smallest failing subset first, so that the replay message names a minimal input
     return {"viol": C8.dedupe(viol, 1), "outcome": "subsets:" + s + ":" + ",".join(sorted(o.split(":")[0] for o in outcomes)),
-            "key": f"subsets:{s}:{case['masks'][0]}:{len(case['masks'])}", "nfill": nfill, "detail": outcomes}
+            "key": f"subsets:{s}:{case['mask']}", "nfill": nfill, "detail": outcomes}
+
+
+def full_config(case):
+    """lattice / CLI cases carry only their deviations from the default configuration (short replays)"""
+    c = {k: v[0] for k, v in DIMS.items() if k != "subset"}
+    c.update(case)
+    return c
 
 
 def baseline_of(c):
@@ -416,7 +449,7 @@ def baseline_of(c):
 
 def run_lattice_case(case):
     """part B: one configuration of the deviation lattice + its plain-presentation baseline"""
-    c = dict(case)
+    c = full_config(case)
     viol, out, info = evaluate(c)
     nfill = 1
     if out == "accepted":
@@ -533,7 +566,7 @@ PRINT_TOL = 1e-6     # pandas to_string prints floats with 6 decimals: half a un
 
 
 def run_cli(case):
-    c = dict(case)
+    c = full_config(case)
     s = c["system"]
     S = L.mask_to_subset(s, c["mask"])
     A = relations_in_force(s, "empty")
@@ -715,7 +748,7 @@ def subset_masks(system, tier_quick, restrict_large):
     t = L.rank_table(system)
     if not tier_quick:
         if restrict_large and system in ("trigonal7", "monoclinic"):
-            masks = [m for m in range(1 << n) if abs(pc(m) - d) <= 2 or (t[m] == d) != (pc(m) >= d)]
+            masks = [m for m in range(1 << n) if abs(pc(m) - d) <= 2]
             return masks, f"|S| within 2 of {d} ({len(masks)} of {1 << n})", False
         return list(range(1 << n)), f"all {1 << n}", True
     if system in SMALL_SYSTEMS:
@@ -723,7 +756,10 @@ def subset_masks(system, tier_quick, restrict_large):
 
     def near(m):
         return t[m] == d or any(t[m | 1 << k] == d for k in range(n) if not m >> k & 1)
-    if system in ("trigonal6", "trigonal7"):
+    if system == "trigonal7":
+        masks = [m for m in range(1 << n) if (t[m] == d and pc(m) == d) or (t[m] < d and pc(m) == d - 1 and near(m))]
+        return masks, f"sufficient with |S| = {d} + insufficient with |S| = {d - 1} one component short of sufficiency ({len(masks)} of {1 << n})", False
+    if system == "trigonal6":
         masks = [m for m in range(1 << n) if (t[m] == d and pc(m) <= d + 1) or (t[m] < d and pc(m) == d - 1 and near(m))]
         return masks, f"sufficient with |S| in {{{d},{d + 1}}} + insufficient with |S| = {d - 1} one component short of sufficiency ({len(masks)} of {1 << n})", False
     masks = [m for m in range(1 << n) if d - 1 <= pc(m) <= d + 1 and near(m)]
@@ -758,10 +794,9 @@ def explore(ctx):
         n_suff = sum(1 for m in masks if L.is_sufficient(s, L.mask_to_subset(s, m))) if s == "triclinic" else \
             sum(1 for m in masks if L.rank_table(s)[m] == L.dimension(s))
         counts[s] = {"explored": len(masks), "sufficient_among_them": n_suff, "rule": desc}
-        for ch in C8.chunks(masks, 6):
-            cases.append({"what": "subsets", "system": s, "masks": ch})
-    res = ctx.run(MOD, "run_case", cases, part="subsets-x-flags-x-kinds", chunksize=1,
-                  states=sum(len(c["masks"]) for c in cases), transitions=0)
+        for m in masks:
+            cases.append({"what": "subsets", "system": s, "mask": m})
+    res = ctx.run(MOD, "run_case", cases, part="subsets-x-flags-x-kinds", chunksize=8, transitions=0)
     nf = sum(r.get("nfill", 0) for r in res)
     ctx.transitions += nf
     ctx.notes["A_subsets"] = counts
@@ -791,7 +826,7 @@ def explore(ctx):
                 continue
             seen.add(key)
             edges += max(k, 1)
-            cases.append(c)
+            cases.append({k_: v for k_, v in c.items() if k_ not in DIMS or v != DIMS[k_][0]})
     res = ctx.run(MOD, "run_case", cases, part="presentation-lattice", transitions=edges)
     full, _ = lattice_size(DIMS, None)
     done, _ = lattice_size(DIMS, bound)
@@ -818,8 +853,9 @@ def explore(ctx):
                         for cwd in ("empty", "dir"):
                             if cwd == "dir" and (ir or ires or drop != DEFAULT_DROP):
                                 continue
-                            cases.append({"what": "cli", "system": s, "mask": mask, "kind": kind, "ir": ir, "ires": ires,
-                                          "drop": drop, "cwd": cwd})
+                            c = {"what": "cli", "system": s, "mask": mask, "kind": kind, "ir": ir, "ires": ires,
+                                 "drop": drop, "cwd": cwd}
+                            cases.append({k_: v for k_, v in c.items() if k_ not in DIMS or v != DIMS[k_][0]})
     seen, uniq = set(), []
     for c in cases:
         k = case_key(c)
